@@ -2,9 +2,10 @@ package c16
 
 import (
 	"crypto"
-	"reflect"
 	"fmt"
+	"reflect"
 	"regexp"
+	"strings"
 	"sync"
 
 	"github.com/miekg/dns"
@@ -164,14 +165,19 @@ func eachOptionKind(emit func(recCase)) {
 // copies of messages
 
 type msgCase struct {
-	M wm.Msg
+	M   wm.Msg
+	Odd int `json:",omitempty"` // read-only-operations: a hand-assembled oddity applied to the library value (0: none)
 }
 
 func genMsg(t *rapid.T) msgCase {
 	mo := &gen.MsgOpts{Share: true, MaxRecs: 3}
 	mo.Unknown = true
 	mo.NoRdata = true
-	return msgCase{M: gen.Msg(t, mo)}
+	c := msgCase{M: gen.Msg(t, mo)}
+	if rapid.IntRange(0, 3).Draw(t, "odd") == 0 {
+		c.Odd = rapid.IntRange(1, 40).Draw(t, "oddkind")
+	}
+	return c
 }
 
 func msgKey(m wm.Msg) []byte {
@@ -297,6 +303,25 @@ func checkReadOnly(c msgCase) error {
 					m.Code[i], m.Code[j] = m.Code[j], m.Code[i]
 				}
 			}
+		}
+	}
+	// values assembled by hand rather than decoded: owner names left empty or not fully qualified
+	// (the packers refuse or mis-encode such a record; they still have no business changing it)
+	if all := append(append(append([]dns.RR{}, lib.Answer...), lib.Ns...), lib.Extra...); c.Odd != 0 && len(all) > 0 {
+		victim := all[(c.Odd/4)%len(all)]
+		switch c.Odd % 4 {
+		case 0, 1:
+			if opt := lib.IsEdns0(); opt != nil {
+				victim = opt
+			}
+			victim.Header().Name = ""
+			pbt.Class("odd:empty-owner")
+		case 2:
+			victim.Header().Name = strings.TrimSuffix(victim.Header().Name, ".")
+			pbt.Class("odd:unqualified-owner")
+		case 3:
+			victim.Header().Rdlength = 0xFFFF
+			pbt.Class("odd:stale-rdlength")
 		}
 	}
 	before := snap(lib)
